@@ -25,3 +25,5 @@ Check (C06_agent_failure_is_final) : (forall lc g hs1 h hs2 st tr st1 tr1 st2 tr
 Print Assumptions C06_agent_failure_is_final.
 Check (C06_command_failure_is_contained) : (forall lc g hs1 h hs2 st tr st1 tr1 st2 tr2, run_all g lc hs1 st tr = Some (Ok, st1, tr1) -> run g lc (init h) st1 tr1 = Some (Failed, st2, tr2) -> run_all g lc (hs1 ++ TCmd h :: hs2) st tr = run_all g lc hs2 st2 tr2).
 Print Assumptions C06_command_failure_is_contained.
+Check (C06_acyclic_programs_terminate) : (forall lc rank, stratified lc rank -> forall r h, modifies_below rank r h -> forall st tr, exists f res, eval f lc h st tr = Some res).
+Print Assumptions C06_acyclic_programs_terminate.
